@@ -6,7 +6,7 @@
    Hand-written (trusted base): the map from shared-object classes to their guards, the lists of
    functions that run before an object is shared, and of helpers that are only called with the
    guard held (the latter checked against the call table). *)
-From Coq Require Import List String Bool.
+From Coq Require Import List String Ascii Bool Arith.
 From Gen Require Import Tables.
 Import ListNotations.
 Open Scope string_scope.
@@ -29,13 +29,6 @@ Definition guards : list guard := [
   mkG "Server" ["svcs"] "svr.mu" [] []
 ].
 
-Definition guarded_ok (g : guard) (a : field_access) : bool :=
-  negb (String.eqb (fa_type a) (g_type g) && str_in (fa_field a) (g_fields g))
-  || str_in (g_mutex g) (fa_locks a)
-  || str_in (fa_func a) (g_exempt g)
-  || str_in (fa_func a) (g_helpers g).
-
-(* a helper may only be called from a region that holds the guard, or from another helper *)
 Definition method_name (f : string) : string :=
   (* "Ackqueue.insert" is called as "aq.insert" *)
   match index 0 "." f with
@@ -43,12 +36,34 @@ Definition method_name (f : string) : string :=
   | None => f
   end.
 
+(* helpers: besides the listed ones, every UNEXPORTED method of the type that touches a guarded field without taking
+   the guard itself is treated as a helper - which obliges every one of its call sites to hold the guard (checked below
+   against the call table).  An extracted helper function therefore needs no change here; an exported method has to
+   take the guard itself. *)
+Definition unexported (f : string) : bool :=
+  match method_name f with
+  | String c _ => Nat.leb 97 (Ascii.nat_of_ascii c) && Nat.leb (Ascii.nat_of_ascii c) 122
+  | EmptyString => false
+  end.
+Definition touches_unguarded (g : guard) (a : field_access) : bool :=
+  String.eqb (fa_type a) (g_type g) && str_in (fa_field a) (g_fields g) && negb (str_in (g_mutex g) (fa_locks a)).
+Definition helpers_of (g : guard) : list string :=
+  g_helpers g ++ map fa_func (filter (fun a => touches_unguarded g a && unexported (fa_func a)) field_accesses).
+
+Definition guarded_ok (g : guard) (a : field_access) : bool :=
+  negb (String.eqb (fa_type a) (g_type g) && str_in (fa_field a) (g_fields g))
+  || str_in (g_mutex g) (fa_locks a)
+  || str_in (fa_func a) (g_exempt g)
+  || str_in (fa_func a) (helpers_of g).
+
+(* a helper may only be called from a region that holds the guard, or from another helper *)
+
 Definition calls_helper (g : guard) (callee : string) : bool :=
   existsb (fun h => match index 0 "." callee with
                     | Some i => String.eqb (substring (S i) (length callee) callee) (method_name h)
                                 && String.eqb (substring 0 i callee) (substring 0 (match index 0 "." (g_mutex g) with Some j => j | None => 0 end) (g_mutex g))
                     | None => false
-                    end) (g_helpers g).
+                    end) (helpers_of g).
 
 Definition region_holds (f : string) (g : guard) (callee : string) : bool :=
   existsb (fun r => String.eqb (lr_func r) f && String.eqb (lr_mutex r) (g_mutex g) && str_in callee (lr_calls r)) lock_regions.
@@ -56,7 +71,7 @@ Definition region_holds (f : string) (g : guard) (callee : string) : bool :=
 Definition helper_calls_ok (g : guard) : bool :=
   forallb (fun fc =>
     let '(_, f, callees) := fc in
-    forallb (fun c => negb (calls_helper g c) || str_in f (g_helpers g) || region_holds f g c) callees) func_calls.
+    forallb (fun c => negb (calls_helper g c) || str_in f (helpers_of g) || region_holds f g c) callees) func_calls.
 
 (* every Lock is released on every syntactic path (no mutex is left held) *)
 Definition all_balanced : bool := forallb lr_balanced lock_regions.
@@ -105,7 +120,7 @@ Lemma stop_order_lemma : stop_order_ok = true.      Proof. vm_compute. reflexivi
 (* the decision, unfolded: every access to a guarded field holds the guard (or is made by a listed helper) *)
 Lemma discipline_forall : forall g a, In g guards -> In a field_accesses ->
   fa_type a = g_type g -> In (fa_field a) (g_fields g) ->
-  In (g_mutex g) (fa_locks a) \/ In (fa_func a) (g_exempt g) \/ In (fa_func a) (g_helpers g).
+  In (g_mutex g) (fa_locks a) \/ In (fa_func a) (g_exempt g) \/ In (fa_func a) (helpers_of g).
 Proof.
   intros g a Hg Ha Ht Hf.
   pose proof discipline as D. unfold discipline_ok in D.
